@@ -101,6 +101,52 @@ Proof.
   intros Hc. apply collect_derived_names in Hc. cbn in Hnd. inversion Hnd; auto.
 Qed.
 
+
+(* a derived induction variable is defined by a top-level binary statement *)
+Lemma collect_derived_toplevel s colls rest d :
+  In d (collect_derived s colls rest) -> exists op a b, In (SBin (dn_name d) op a b) rest.
+Proof.
+  induction rest as [|st r IH]; cbn; [contradiction|].
+  assert (Hr : In d (collect_derived s colls r) -> exists op a b, st = SBin (dn_name d) op a b \/ In (SBin (dn_name d) op a b) r).
+  { intros H. destruct (IH H) as (op & a & b & Hi). eauto 6. }
+  destruct st as [y op a b| | | | | | | | | |]; auto.
+  destruct (assoc y s) as [dd|]; auto. destruct (memb y colls); auto.
+  intros [<-|H]; auto. cbn. eauto 6.
+Qed.
+
+(* every statement the dead code elimination keeps is the image of a statement of its input *)
+Lemma dce_stmts_in ss : forall s st,
+  In st (fst (dce_stmts ss s)) -> exists st0 s1, In st0 ss /\ fst (dce_stmt st0 s1) = Some st.
+Proof.
+  induction ss as [|s0 r IH]; intros s st H; [contradiction|].
+  cbn [dce_stmts] in H. destruct (dce_stmts r s) as [r' s1] eqn:Er. destruct (dce_stmt s0 s1) as [o s2] eqn:Eo.
+  cbn [fst] in H.
+  assert (Hr : In st r' -> exists st0 s1, In st0 (s0 :: r) /\ fst (dce_stmt st0 s1) = Some st).
+  { intros Hi. specialize (IH s st). rewrite Er in IH. destruct (IH Hi) as (st0 & s1' & A & B). exists st0, s1'. split; [now right | assumption]. }
+  destruct o as [st'|]; [|auto]. destruct H as [<-|H]; [|auto].
+  exists s0, s1. split; [now left|]. now rewrite Eo.
+Qed.
+Lemma dce_stmt_keeps_SBin x op a b s st : fst (dce_stmt (SBin x op a b) s) = Some st -> st = SBin x op a b.
+Proof. cbn [dce_stmt]. destruct (negb (memb x s) && negb (is_divmod op)); cbn; [discriminate | now intros [= <-]]. Qed.
+
+Lemma in_binders_l' x l : In x (binders_l l) <-> exists st, In st l /\ In x (binders st).
+Proof.
+  induction l as [|s r IH]; cbn [binders_l].
+  - split; [intros [] | intros (st & [] & _)].
+  - rewrite in_app_iff, IH. split.
+    + intros [H|(st & Hs & H)]; [exists s; split; [now left | assumption] | exists st; split; [now right | assumption]].
+    + intros (st & [<-|Hs] & H); [now left | right; eauto].
+Qed.
+Lemma nodup_binder_unique l : forall s1 s2 x,
+  NoDup (binders_l l) -> In s1 l -> In s2 l -> In x (binders s1) -> In x (binders s2) -> s1 = s2.
+Proof.
+  induction l as [|s r IH]; intros s1 s2 x Hnd H1 H2 B1 B2; [contradiction|]. cbn [binders_l] in Hnd.
+  destruct H1 as [<-|H1], H2 as [<-|H2]; auto.
+  - exfalso. apply (nd_app_disj _ _ x Hnd); auto. apply in_binders_l'. eauto.
+  - exfalso. apply (nd_app_disj _ _ x Hnd); auto. apply in_binders_l'. eauto.
+  - eapply IH; eauto. eapply nd_app_r; eauto.
+Qed.
+
 Lemma bind_e2_in w l en t : NoDup (map t_name l) -> In t l -> lookup (t_name t) (bind_e2 w l en) = eval w en (t_e2 t).
 Proof. intros Hnd Hi. unfold bind_e2. rewrite lookup_bind, (find_name_unique l t Hnd Hi). reflexivity. Qed.
 Lemma bind_e1_in w l en en0 t : NoDup (map t_name l) -> In t l ->
@@ -746,6 +792,114 @@ Section Extract.
   Lemma o_bc_eq : bc_of o = bc /\ (bc <> None -> bv_of o = e0).
   Proof.
     unfold bc_of, bv_of. cbn [o o_bc owl_of]. rewrite Hbc. destruct bc; split; auto; congruence.
+  Qed.
+
+
+  (* ---- bridge: the analysis result is internally consistent and reads what is in scope (used by the composition
+     of the stage theorems; none of these depends on the temporaries) ---- *)
+  Let KA := i :: map t_name (filter (fun v => memb (t_name v) (useful_of o)) others) ++ map gi_name (kept_generals o).
+  Lemma useful_LN_in_KA x : In x LN -> In x (useful_of o) -> In x KA.
+  Proof.
+    intros Hx Hu. unfold KA.
+    apply (Permutation_in _ names_perm) in Hx. apply in_app_iff in Hx. destruct Hx as [Hx|Hx].
+    - apply in_map_iff in Hx. destruct Hx as (b & <- & Hb).
+      destruct (N.eq_dec (gc_name b) i) as [E|Ne]; [now left|]. right. apply in_or_app. right.
+      apply in_map_iff. exists (mkgiv (gc_name b) (gc_init b) (gc_inc b)). split; [reflexivity|].
+      unfold kept_generals. apply filter_In. split.
+      + cbn [o o_general owl_of]. apply (in_map (fun it => mkgiv (gc_name it) (gc_init it) (gc_inc it))).
+        apply filter_In. split; auto. apply negb_true_iff. now apply N.eqb_neq.
+      + cbn. now apply memb_In.
+    - right. apply in_or_app. left. apply in_map_iff in Hx. destruct Hx as (t & <- & Ht). apply in_map. apply filter_In. split; auto. now apply memb_In.
+  Qed.
+  Lemma S0_useful_KA x : In x S0 -> x <> cc0 -> In x (useful_of o) -> In x (KA ++ S).
+  Proof.
+    intros Hs Hne Hu. unfold S0 in Hs. cbn in Hs. rewrite in_app_iff in Hs. apply in_or_app.
+    destruct Hs as [E|[H|H]]; [congruence | left; now apply useful_LN_in_KA | now right].
+  Qed.
+  Lemma general_names : map gi_name (o_general o) = map gc_name (filter (fun it => negb (N.eqb (gc_name it) i)) all_basic).
+  Proof. cbn [o o_general owl_of]. apply map_gi_name_mk. Qed.
+
+  Lemma bridge_names :
+    NoDup (i :: map gi_name (o_general o) ++ map t_name others) /\
+    (forall x, In x (i :: map gi_name (o_general o) ++ map t_name others) -> In x LN) /\
+    NoDup (map dn_name (o_derived o)) /\
+    (forall x, In x (map dn_name (o_derived o) ++ binders_l stmts) -> In x (binders_l rest)) /\
+    NoDup (binders_l stmts) /\
+    (forall d, In d (o_derived o) -> In (dn_base d) (i :: map gi_name (o_general o))).
+  Proof.
+    pose proof names_nodup as Hn.
+    split; [|split; [|split; [exact DN_nodup|split; [|split]]]].
+    - rewrite general_names. constructor.
+      + rewrite in_app_iff. intros [H|H].
+        * apply in_map_iff in H. destruct H as (b & E & Hb). apply filter_In in Hb. destruct Hb as [_ Hb].
+          apply negb_true_iff in Hb. apply N.eqb_neq in Hb. contradiction.
+        * apply (nd_app_disj _ _ i Hn); auto. rewrite <- gb_name. apply in_map, gb_in.
+      + apply nd_app_intro; [apply NoDup_map_filter, basic_names_nodup | eapply nd_app_r; eauto |].
+        intros x H1 H2. apply (nd_app_disj _ _ x Hn); auto. apply in_map_iff in H1. destruct H1 as (b & <- & Hb).
+        apply filter_In in Hb. apply in_map. tauto.
+    - rewrite general_names. intros x [<-|H]; [rewrite <- gb_name; apply basic_in_LN, gb_in|].
+      apply in_app_iff in H. destruct H as [H|H].
+      + apply in_map_iff in H. destruct H as (b & <- & Hb). apply filter_In in Hb. apply basic_in_LN. tauto.
+      + apply in_map_iff in H. destruct H as (t & <- & Ht). now apply other_in_LN.
+    - intros x Hx. apply in_app_iff in Hx. destruct Hx as [Hx|Hx]; [now apply DN_in | now apply stmts_binders].
+    - destruct dce_wf_all as [_ HW]. destruct (HW rest S0 S0 live (proj1 (proj2 (proj2 (proj2 (proj2 sc_parts))))) pre_rest (fun x _ H => H)) as (_ & _ & A3).
+      exact A3.
+    - intros d Hd. destruct (derived_in_rest d Hd) as [_ Hb]. rewrite general_names.
+      apply in_map_iff in Hb. destruct Hb as (b & E & Hb). destruct (N.eq_dec (gc_name b) i) as [Ei|Ne]; [left; congruence|].
+      right. rewrite <- E. apply in_map. apply filter_In. split; auto. apply negb_true_iff. now apply N.eqb_neq.
+  Qed.
+
+  Lemma bridge_reads :
+    scoped_l (KA ++ S) stmts = true /\
+    (forall k y, In k others -> t_e2 k = EVar y -> In y (defs_l stmts ++ map dn_name (o_derived o) ++ KA ++ S)) /\
+    in_scope (KA ++ S) (bv_of o) = true /\
+    (forall x, (bg_init (o_basic o) = EVar x \/ (exists v, In v (o_general o) /\ gi_init v = EVar x) \/
+                (exists k, In k others /\ t_e1 k = EVar x)) -> In x S).
+  Proof.
+    destruct sc_parts as (Hl1 & _ & _ & He0 & Hrest & _).
+    destruct dce_wf_all as [_ HW]. destruct (HW rest S0 S0 live Hrest pre_rest (fun x _ H => H)) as (A1 & A2 & _).
+    change (fst (dce_stmts rest live)) with stmts in A1, A2.
+    destruct cc0_unused as (Hc0 & _ & Hc2).
+    split; [|split; [|split]].
+    - apply (scoped_l_restrict stmts S0 (KA ++ S) A1). intros x Hs Hu.
+      apply S0_useful_KA; auto.
+      + intros ->. apply Hc0. rewrite o_stmts_eq in Hu. now apply dce_uses_sub in Hu.
+      + apply useful_spec. now left.
+    - intros k y Hk Hy. destruct (loop_value_scope k y (others_in k Hk) Hy) as [Hscy Hne].
+      assert (Hu : In y (useful_of o)) by (apply useful_spec; right; left; exists k; auto).
+      destruct (in_dec N.eq_dec y (map dn_name (o_derived o))) as [Hd|Hndd]; [rewrite !in_app_iff; tauto|].
+      assert (Hlive : In y live) by (apply live_spec; eauto).
+      assert (Hin : In y (defs_l rest ++ S0)).
+      { unfold S0. rewrite in_app_iff. cbn. rewrite in_app_iff. tauto. }
+      specialize (A2 y Hlive Hin). apply in_app_iff in A2. destruct A2 as [A2|A2]; [rewrite !in_app_iff; tauto|].
+      pose proof (S0_useful_KA y A2 Hne Hu) as H. rewrite !in_app_iff in *. tauto.
+    - unfold bv_of. cbn [o o_bc owl_of]. rewrite Hbc. destruct bc as [b|]; [|reflexivity].
+      destruct (as_var e0) as [y|] eqn:Ey; [|destruct e0; try reflexivity; discriminate].
+      apply as_var_some in Ey. subst e0. apply in_scope_var. apply in_scope_var in He0.
+      apply S0_useful_KA; auto.
+      + intros ->. apply Hc2; [discriminate | reflexivity].
+      + apply useful_spec. right. right. left. unfold bv_of. cbn [o o_bc owl_of]. now rewrite Hbc.
+    - rewrite forallb_forall in Hl1. intros x [H|[(v & Hv & H)|(k & Hk & H)]].
+      + cbn [o o_basic owl_of bg_init] in H. destruct (basic_facts gb gb_in) as [Hi _]. specialize (Hl1 _ Hi).
+        cbn [t_e1 fst snd] in Hl1. rewrite H in Hl1. now apply in_scope_var in Hl1.
+      + cbn [o o_general owl_of] in Hv. apply in_map_iff in Hv. destruct Hv as (b & <- & Hb). apply filter_In in Hb.
+        destruct (basic_facts b (proj1 Hb)) as [Hi _]. specialize (Hl1 _ Hi). cbn [t_e1 fst snd gi_init] in *.
+        rewrite H in Hl1. now apply in_scope_var in Hl1.
+      + specialize (Hl1 _ (others_in k Hk)). rewrite H in Hl1. now apply in_scope_var in Hl1.
+  Qed.
+
+  (* a statement of the body that binds a derived induction variable is its (top-level, binary) defining statement *)
+  Lemma bridge_defs d st : In d (o_derived o) -> In st stmts -> In (dn_name d) (binders st) ->
+    exists op1 a b, st = SBin (dn_name d) op1 a b.
+  Proof.
+    intros Hd Hst Hb. cbn [o o_derived owl_of] in Hd. unfold extract_derived in Hd.
+    destruct (collect_derived_toplevel _ _ _ _ Hd) as (op1 & a & b & Hi).
+    rewrite o_stmts_eq in Hst. destruct (dce_stmts_in _ _ _ Hst) as (st0 & s1 & Hi0 & Ek).
+    assert (Hb0 : In (dn_name d) (binders st0)).
+    { pose proof (proj1 dce_sets_both st0 s1) as (_ & _ & H3). apply H3. rewrite Ek. exact Hb. }
+    assert (E : st0 = SBin (dn_name d) op1 a b).
+    { apply (nodup_binder_unique rest st0 _ (dn_name d) rest_nodup Hi0 Hi Hb0). cbn. now left. }
+    subst st0. apply dce_stmt_keeps_SBin in Ek. eauto.
   Qed.
 
   Definition Kbrk (v v' : Z) (e1 e1' : env) : Prop := (bc <> None -> v = v') /\ agree w S e1 e1'.
